@@ -110,8 +110,10 @@ def write(root, pid, doc):
         jsonschema.validate(doc, json.load(open(SCHEMA)))
     except ImportError:
         c = doc["coverage"]
-        assert c["evaluations"] >= 1 and isinstance(c["samples"], list) and len(c["samples"]) >= 1
-        assert isinstance(c["rule"], str) and isinstance(c["distinct_nontrivial"], int)
+        if not (c["evaluations"] >= 1 and isinstance(c["samples"], list) and len(c["samples"]) >= 1
+                and isinstance(c["rule"], str) and isinstance(c["distinct_nontrivial"], int)):
+            # e.g. every worker died in its first case: the result (violations / INFRA) must still be printed
+            print("INFRA: evidence is incomplete (evaluations=%s, samples=%s)" % (c.get("evaluations"), len(c.get("samples") or [])))
     except Exception as e:  # schema problems must not hide the result
         print("INFRA: evidence does not validate: %s" % str(e)[:300])
     tmp = path + ".tmp"
